@@ -44,7 +44,7 @@ claim("C05",
 
 claim("C06",
   "statistical property testing (bias and spread of n_hat/n against the advertised formula, normal approximation with z = 7.5 and confirmation) + stateful monotonicity histories + differential sequential vs rayon-parallel estimator under several pool sizes",
-  "Exploration: 96/1600 accuracy configurations (m 16..4096, b in (1,2], n 1..2e4 / 2e6, repetitions) with 600..4e4 trials each; 6e3/1.5e5 histories in which the estimate is checked after every single item and every merge, and the parallel estimator is compared with the sketcher's own estimate under rayon pools of 1,2,3,8,16 threads.",
+  "Exploration: 96/1000 accuracy configurations (m 16..4096 and 66 000 / 70 000, b in (1,2], n 1..2e4 / 2e6, repetitions) with 600..4e4 trials each; 6e3/1.5e5 histories in which the estimate is checked after every single item and every merge, and the parallel estimator is compared with the sketcher's own estimate under rayon pools of 1,2,3,8,16 threads.",
   "The expectation claim is tested from m = 16 and with a normal approximation (the statistic is unbounded); rayon reduction orders are sampled, agreement is required to 4 m eps which covers every order.",
   "DESIGN.md 4, 5/C06")
 
